@@ -500,7 +500,18 @@ and run_case_model (oc : out_channel) (c : case) : unit =
           let gi = ios st.(1) in
           let (g', r) = g_remove keqb (getg gi) (n_of_int (ios st.(2))) in
           setg gi g';
-          (match r with Some u -> "some " ^ key_str !h u | None -> "none")
+          (match r with
+           | Some u ->
+               let d = if directed then int_of_nat (out_degree !h u) + int_of_nat (in_degree !h u) else List.length (adj_u !h u) in
+               Printf.sprintf "some %s deg %d" (key_str !h u) d
+           | None -> "none")
+      | "gnn" ->
+          let gi = ios st.(1) in
+          let u = size !h in
+          ignore (apply (ONew (n_of_int (ios st.(2)), z_of_str st.(3))));
+          let (g', b) = g_insert keqb !h (getg gi) u in
+          setg gi g'; Printf.sprintf "ok %d" (b2i b)
+      | "gsnap" -> "gsnap " ^ graph_snap directed !h (getg (ios st.(1)))
       | "gvec" | "giter" -> Printf.sprintf "%s res %s" (order_str order) (keys_of !h (g_iter keqb (getg (ios st.(1))) order))
       | "gorph" -> Printf.sprintf "%s res %s" (order_str order) (keys_of !h (g_orphans keqb !h (getg (ios st.(1))) order))
       | "groots" -> Printf.sprintf "%s res %s" (order_str order) (keys_of !h (g_roots keqb !h (getg (ios st.(1))) order))
